@@ -124,9 +124,9 @@ class T(Entity):
 
 # topology -> list of body lines for hierarchical (H) and flat (F) rendering; {inst} placeholders:
 #   INST(LeafX, leaf_x, dict formal->actual expr)
-def inst(h, cls, fn, order, conn, helper=None):
+def inst(h, cls, fn, order, conn, helper=None, rev=False):
     if h:
-        args = ", ".join(f"{k}={conn[k]}" for k in order)
+        args = ", ".join(f"{k}={conn[k]}" for k in (reversed(order) if rev else order))
         if helper:
             return f"{helper}[{cls}]({args})"
         return f"{cls}({args})"
@@ -198,6 +198,14 @@ def designs():
                                               "mid_logic(self.clk, self.i[2], self.i[0], t2, t1, False)"] + PUB4,
         [("mid", dict(clk="self.clk", a="self.i[0]", b="self.i[1]", y="t3", z="t0")),
          ("mid", dict(clk="self.clk", a="self.i[2]", b="self.i[0]", y="t2", z="t1"))])
+    # keyword arguments written in an order different from the port declaration order
+    add("keyword-order-reversed", lambda h: [inst(h, *VEC, dict(x="self.i[1:0]", u="self.j", yv="self.o[1:0]", ys="self.ou"), rev=True),
+                                             inst(h, *REG, dict(clk="self.clk", d="self.i[2]", q="self.ob"), rev=True)],
+        [("leafvec", dict(x="self.i[1:0]", u="self.j", yv="self.o[1:0]", ys="self.ou")), ("leafreg", dict(clk="self.clk", d="self.i[2]", q="self.ob"))])
+    add("keyword-order-rotated-xor", lambda h: SIG4 + ["LeafXor(b=self.i[1], y=self.ob, a=self.i[0])" if h else "leaf_xor(self.i[0], self.i[1], self.ob)",
+                                                       "Mid(z=t0, y=t1, b=self.i[3], a=self.i[2], clk=self.clk)" if h else
+                                                       "mid_logic(self.clk, self.i[2], self.i[3], t1, t0, False)"] + PUB4,
+        None)
     # the same template at two depths (directly and below Mid), found at the shallower depth first
     add("two-depths", lambda h: SIG4 + [inst(h, *XOR, dict(a="self.i[2]", b="self.i[3]", y="t1")),
                                         "Mid(clk=self.clk, a=self.i[0], b=self.i[1], y=t3, z=t0)" if h else
@@ -214,6 +222,12 @@ def designs():
                                            "    " + (inst(True, *XOR, dict(a="self.i[0]", b="self.i[1]", y="self.ob")) if h else "pass"),
                                            "    self.o[3] <<= self.i[3]"] + ([] if h else [inst(False, *XOR, dict(a="self.i[0]", b="self.i[1]", y="self.ob"))]),
         [("leafxor", dict(a="self.i[0]", b="self.i[1]", y="self.ob"))])
+    # instance created inside a concurrent context whose actual is an expression result (an intermediate of that context)
+    add("inline-expression-actual", lambda h: (["@std.concurrent", "def logic():", "    t = self.j + 1",
+                                               "    LeafVec(x=self.i[1:0], u=t, yv=self.o[1:0], ys=self.ou)"] if h else
+                                              ["tt = Signal[Unsigned[2]](name='tt')", "@std.concurrent", "def logic():", "    tt.next = self.j + 1",
+                                               "leaf_vec(self.i[1:0], tt, self.o[1:0], self.ou)"]),
+        None)
     # helpers
     add("open-entity", lambda h: (["e = std.OpenEntity[LeafXor](a=self.i[0], b=self.i[1])",
                                    "@std.concurrent", "def pub():", "    self.ob <<= e.y"] if h else
